@@ -360,7 +360,11 @@ def _causal_gen(rng):
     a = s.cavity_radius
     t = 10 ** rng.uniform(-2, 0.5) / n
     front = a + cl * t
-    return dict(kw=kw, t=t, pts=[front * (1 + 1e-9) + 1e-12, front * 1.01, front * 2.0, front * 30.0])
+    # not monotone on purpose: points ahead of the front sit between disturbed points (a mesh flattened
+    # from 2-D, an unsorted probe list) -- each point's value must not depend on its neighbours in the array
+    b = lambda q: a + q * (front - a)
+    return dict(kw=kw, t=t, front=front,
+                pts=[b(0.3), front * (1 + 1e-9) + 1e-12, b(0.8), front * 1.01, b(0.5), front * 2.0, b(0.95), front * 30.0])
 
 
 def _causal_check(c):
@@ -368,6 +372,8 @@ def _causal_check(c):
     if f is None:
         return None
     for i, r in enumerate(c['pts']):
+        if 'front' in c and r <= c['front']:
+            continue
         for k in ('displacement', 'strain_rr', 'strain_qq', 'strain_vol', 'stress_rr', 'stress_qq', 'pressure',
                   'stress_dev_rr', 'stress_dev_qq', 'stress_diff'):
             if f[k][i] != 0.0:
